@@ -1,4 +1,4 @@
-// Counterexample found by mirsym/z3 for property C19: timesz(x,N,y) ; timesz(N,y,N) answer leaves factor 0 of constraint 0 unbound although it is determined (or impossible) e.g. timesz(x, -3, y), timesz(2, y, -2)
+// Counterexample found by mirsym/z3 for property C19: timesz(x,N,y) ; timesz(N,y,N) answer leaves factor 0 of constraint 0 unbound although it is determined (or impossible) e.g. timesz(x, 0, y), timesz(-2, y, -4)
 // Replay: /verif/check C19 --replay /verif/replay/cases/C19-S3_timesz_timesz_timesz_x_N_y_timesz_N_y_N_determined_operand_unbound_c0_pos_0.rs   (runs this program natively against /repo)
 use proto_vulcan::prelude::*;
 #[allow(unused_imports)]
@@ -11,8 +11,8 @@ fn replay() {
     let query = proto_vulcan_query!(|q| {
         |x, y| {
             q == [x, y],
-            timesz(x, -3, y),
-            timesz(2, y, -2)
+            timesz(x, 0, y),
+            timesz(-2, y, -4)
         }
     });
     let expected: isize = -2; // -1: any number of answers, but no panic; -2: no unbound variable in any answer
